@@ -82,11 +82,22 @@ HIST = {
  "C15-a5": "MISSED by the check as it stood; caught after: source texts with sequences of 2-4 literals of different kinds (lexer state between tokens); theorem lex_tokens_independent",
  "C16-b5": "MISSED by the check as it stood; caught after: text-driven JSON-shaped inputs with repeated keys read as a literal and through json_decode; theorem dictLiteral_last_wins",
  "C17-b5": "MISSED by the check as it stood; caught after: all-constant list / dict entries of every literal kind in the construct corpus",
+ "C01-a6": "MISSED by the check as it stood; caught after: assignments whose target index expression and right-hand side interfere (ref:assign-order)",
+ "C01-b6": "MISSED by the check as it stood; caught after: closures created in loop bodies and called after the loop (ref:loop-closure)",
+ "C02-a6": "MISSED by the check as it stood; caught after: `++=` on full vector and bytes buffers at exact power-of-two sizes (vpp_* / bpp_* families)",
+ "C02-b6": "MISSED by the check as it stood; caught after: a `::field` twin of every struct-field workload family (sym_*)",
+ "C04-a6": "MISSED by the check as it stood; caught after: chain sections with 2-3 operators of different precedence and the slot in every operand position, against the direct chain",
+ "C04-b6": "MISSED by the check as it stood; caught after: n-ary application forms (3-5 arguments) of the variadic builtins against the infix chain",
+ "C05-a6": "MISSED by the check as it stood; caught after: generator form short-circuit-values (null / empty string / empty list on the left of and / or / coalesce, value observed)",
+ "C06-a6": "MISSED by the check as it stood; caught after: is_prime / factorize exhaustively on 0..3000 and on the squares and neighbouring products of the primes below 1000",
+ "C09-b6": "MISSED by the check as it stood; caught after: op-assign statements whose right-hand side reads the entry being updated (model DictOps.opAssignRhs); theorem opAssignRhs_refines",
+ "C14-a6": "MISSED by the check as it stood; caught after: templates with several try / catch statements of one scope sharing the catch name, judged must-evaluate",
+ "C14-b6": "MISSED by the check as it stood; caught after: control flow escaping from a builtin is judged in the statement sweep; infix / partial-application / op-assign forms of the folding builtins",
 }
 def main():
     for d in sorted(os.listdir(os.path.join(ROOT, "seeded"))):
         p = os.path.join(ROOT, "seeded", d)
-        if not (d.endswith("2") or d.endswith("3") or d.endswith("4") or d.endswith("5")) or not os.path.isdir(p):
+        if not (d.endswith("2") or d.endswith("3") or d.endswith("4") or d.endswith("5") or d.endswith("6")) or not os.path.isdir(p):
             continue
         rnd = int(d[-1])
         prop = d.split("-")[0]
